@@ -56,6 +56,7 @@ def run(rep):
     png_interlace(rep, fns)
     partial_rows_scan(rep, fns)
     partial_rows_lib(rep, fns)
+    bmp_bit_manipulators(rep, fns)
 
 
 def must_call(rep, fns):
@@ -737,3 +738,36 @@ def partial_rows_lib(rep, fns):
         else:
             rep.ok("S7-partial-rows", key, "codec row == Y0 + destination row")
     rep.floor("obligations:S7c", 3)
+
+
+def bmp_bit_manipulators(rep, fns):
+    rep.rule("S12 bmp sub-byte rows: reader and scanline reader apply the same byte functor per depth (1 bit: mirror_bits, 4 bit: swap_half_bytes, 8 bit: none) before the palette look-up")
+    rd, sc = {}, {}
+    for f in fns:
+        if fmt_of(f) != "bmp":
+            continue
+        if f["name"].endswith("reader::read_palette_image") and "scanline" not in f["name"]:
+            m = re.search(r"read_palette_image<(.*)$", f["full"])
+            if not m:
+                continue
+            t = m.group(1)
+            b = re.search(r"bit_aligned_pixel_reference<unsigned \w+, boost::mp11::mp_list<std::integral_constant<unsigned int, (\d+)>>", t)
+            bits = int(b.group(1)) if b else 8
+            fun = re.search(r"detail::(mirror_bits|swap_half_bytes|do_nothing|negate_bits)<", t)
+            rd[bits] = fun.group(1) if fun else "?"
+        m = re.search(r"scanline_reader::read_(\d+)_bits?_row$", f["name"])
+        if m and int(m.group(1)) in (1, 4, 8):
+            calls = [x["callee"]["name"].split("::")[-2] for x, _ in R.find(f["body"], lambda x: x.get("k") == "Call" and x.get("op") == "()" and
+                     re.search(r"(mirror_bits|swap_half_bytes|negate_bits|do_nothing)::operator\(\)$", (x.get("callee") or {}).get("name", "")))]
+            sc[int(m.group(1))] = calls[0] if len(calls) == 1 else ("do_nothing" if not calls else "+".join(calls))
+    want = {1: "mirror_bits", 4: "swap_half_bytes", 8: "do_nothing"}
+    for bits in (1, 4, 8):
+        rep.count("obligations:S12")
+        key = "S12:bmp:%d-bit" % bits
+        if bits not in rd or bits not in sc:
+            rep.fail_analysis("%s: functor not found (reader %s, scanline reader %s)" % (key, rd.get(bits), sc.get(bits)))
+        elif rd[bits] == sc[bits] == want[bits]:
+            rep.ok("S12-bit-manipulator", key, rd[bits])
+        else:
+            rep.violation("S12-bit-manipulator", key, W + "extension/io/bmp/detail/read.hpp vs scanline_read.hpp", {"reader": rd[bits], "scanline_reader": sc[bits], "bmp_format": want[bits]})
+    rep.floor("obligations:S12", 3)
